@@ -7,7 +7,7 @@ from ..impl_dtcwt import IMPL
 
 PROP = 'C04'
 MODULE = 'WaveletsVerif.Properties.C04'
-THEOREMS = ['WV.C04.c2q_q2c', 'WV.C04.extendEven_length']
+THEOREMS = ['WV.C04.c2q_q2c', 'WV.C04.extendEven_length', 'WV.C04.xt_colfilter', 'WV.C04.colfilter_pr', 'WV.C04.level1_pr', 'WV.C04.pr1_of_bounded']
 OPS = ['fwd_j1', 'inv_j1', 'fwd_j2plus', 'inv_j2plus', 'q2c', 'c2q', 'DTCWTForward', 'DTCWTInverse']
 
 
